@@ -158,6 +158,13 @@ pub fn gen_lib(src: &mut Src) -> (LefLibrary, Flags) {
         }
         let no = src.usize_in(0, 4);
         m.obs = (0..no).map(|_| gen_layer_block(src, &mut f)).collect();
+        // a later block may name the layer of an earlier one again and repeat one of its shapes: every LEF
+        // statement still makes one shape
+        if !m.obs.is_empty() && src.prob(1, 5) {
+            let mut again = m.obs[0].clone();
+            again.geometries.truncate(1);
+            m.obs.push(again);
+        }
         // ORIGIN, zero or not: the statement ties the outline to SIZE and every coordinate to its LEF value
         m.origin = match src.weighted(&[2, 1, 1]) {
             0 => None,
